@@ -101,7 +101,7 @@ def gen_program(rng):
 def print_program(rng, p):
     pr = Pr(rng)
     pr.f()
-    if rng.random() < 0.2: pr.comment()
+    for _ in range(rng.choice([0, 0, 0, 0, 1, 1, 2, 3])): pr.comment()          # any number of comment lines may precede '#incremental'
     if p["inc"]: pr.t("#incremental"); pr.t(".")
     for si, st in enumerate(p["steps"]):
         if si: pr.t("#step"); pr.t(".")
@@ -178,7 +178,7 @@ def corpus(ctx):
     return [{"text": t.hex(), "want": w} for t, w in [
         (b"a :- b, not c.\n{x1;x_2} :- 2{a=1, not b=2}.\n", "I0 B R,0,1,2/-3 S,1,1/2,2,1:1/-2:2 E OK"),
         (b"#incremental.\na.\n#step.\nb | c.\n#step.\n", "I1 B R,0,1,- E B R,0,2/3,- E OK"),
-        (b"", "I0 B E OK"), (b":- .{}.", "I0 B R,0,-,- R,1,-,- E OK"),
+        (b"% one\n% two\n  % three\n#incremental.\na.\n#step.\nb.", "I1 B R,0,1,- E B R,0,2,- E OK"), (b"", "I0 B E OK"), (b":- .{}.", "I0 B R,0,-,- R,1,-,- E OK"),
         (b"#minimize{a=0, b=-2}@-3. #project. #assume. #external z.", "I0 B M,-3,2:-2 P,- A,- X,26,2 E OK"),
         (b"x2147483647 :- not x_2147483647.", "I0 B R,0,2147483647,-2147483647 E OK"),
         (b"a :- 1{b=-1}.", None), (b"x2147483648.", None), (b"a :- 1 {b=2147483648}.", None), (b"#step.", None), (b"a\n\n:- b,\n\n,", None),
